@@ -577,4 +577,8 @@ def run(tier, replay=None):
             chk.disagreement("ln_equivalent_permutations != model permsOfDosage", {"dosage": d.tolist(), "impl": pi, "model": pm})
     chk.extra["exhaustive_spaces"] = len(spaces)
     chk.extra["exhaustive"] = True
+    # ------------------------------------------------------------------ per-sample / option plumbing of the programs (shared observer)
+    if tier != "warm":
+        from . import plumbing
+        plumbing.run_plumbing(chk, C.rng(PROP + ":plumbing"), None, PROP, programs=("assemble", "call", "call-exact"), tier=tier)
     return chk.finish()
